@@ -171,23 +171,36 @@ func runC08(c *eng.Ctx) {
 		g := p.GraphOf(f)
 		eventTypes := p.Field(pkgKem, "MonitorConfig", "EventTypes")
 		prm := f.Obj.Type().(*types.Signature).Params().At(0)
-		var loop *ast.RangeStmt
-		eng.InspectNoLit(f.Decl.Body, func(n ast.Node) bool {
-			if rs, ok := n.(*ast.RangeStmt); ok && eng.IsField(info, rs.X, eventTypes) {
-				loop = rs
+		var el *eng.ElemLoop
+		for _, l := range elemLoopsOver(info, f.Decl.Body, func(x ast.Expr) bool { return eng.IsField(info, x, eventTypes) }) {
+			el = l
+		}
+		ok := el != nil
+		// the library form of the same membership test: every return is `slices.Contains(EventTypes, eventType)`
+		if el == nil {
+			nret, ncontains := 0, 0
+			for _, n := range g.Nodes {
+				ret, isR := n.Node.(*ast.ReturnStmt)
+				if !isR {
+					continue
+				}
+				nret++
+				if len(ret.Results) == 1 {
+					if cl, isC := ast.Unparen(ret.Results[0]).(*ast.CallExpr); isC && eng.IsPkgFunc(eng.CalleeOf(info, cl), "slices", "Contains") && len(cl.Args) == 2 &&
+						eng.IsField(info, cl.Args[0], eventTypes) && eng.SelObj(info, cl.Args[1]) == prm {
+						ncontains++
+					}
+				}
 			}
-			return true
-		})
-		ok := loop != nil && loop.Value != nil
-		if ok {
-			elem := eng.SelObj(info, loop.Value)
+			ok = nret > 0 && nret == ncontains
+		} else {
 			eqFact := func(pos bool) func(*eng.GEdge) bool {
 				return g.FactEdge(func(fc eng.Fact) bool {
 					x, y, eq, isEq := eng.EqAtom(fc)
 					if !isEq || eq != pos {
 						return false
 					}
-					return (eng.SelObj(info, x) == elem && eng.SelObj(info, y) == prm) || (eng.SelObj(info, y) == elem && eng.SelObj(info, x) == prm)
+					return (el.IsElem(x) && eng.SelObj(info, y) == prm) || (el.IsElem(y) && eng.SelObj(info, x) == prm)
 				})
 			}
 			for _, n := range g.Nodes {
